@@ -547,7 +547,7 @@ class Survey:
                 )
 
             self._data['standard_deviation'] = self.data.observed.copy(
-                    data=standard_deviation)
+                    data=np.array(standard_deviation))
 
         # If None: assure no standard_deviation in data.
         elif 'standard_deviation' in self.data:
